@@ -1400,3 +1400,163 @@ Check C04_cost_uts46_walks : forall cfg,
       | Uts46.IPanic _ => True
       end).
 Print Assumptions C04_cost_uts46_walks.
+
+From RU Require Proofs.C04_CostPathUp Proofs.C04_CostPathDD Proofs.C02_AuthMain Proofs.C03_ReachHost.
+
+(* THE PATH STATE, UPPER BOUND (Proofs/C04_CostPathUp.v, C04_CostPathDD.v) - every scheme type, context and input.
+   dd_count = the number of times finish_segment sees a double-dot segment in the run; run_bound = |serialization| +
+   12 |pending| + 13 |input| bounds every serialization of the run.
+   (1) steps <= 18 |input| + 12 |pending| + 5 + (file: 2 M + 3) + dd_count * (2 M + 3), M = run_bound: the ONLY
+       super-linear part of parse_path is the resolution of double-dot segments (finding F-C04-8 shows it is real);
+   (2) hence linear when the run resolves no double-dot segment;
+   (3) and never more than quadratic (dd_count <= |input| + 1) - with C04_8_dotdots_cost the order n * L is exact;
+   (4) a computable sufficient condition for (2): a non-file scheme type and an input without '.' and '%' (dotfree),
+       started at a segment boundary as parse_path does: then dd_count = 0 and parse_path costs <= 18 |input| + 5;
+   (5) PathSegmentsMut::extend outside finding F-C04-6: for a non-file scheme type and dotfree segments the whole call
+       costs at most 18 per character + 7 per segment + 1 (file: URLs are quadratic: C04_6_refuted). *)
+Theorem C04_cost_path_upper : forall dbg,
+  (forall ctx st ps l ser ss pend hh, usv_list l -> usv_list pend ->
+     snd (parse_path_loop_c dbg ctx st ps l ser ss pend hh)
+     <= 18 * nlen l + 12 * nlen pend + 5 + C04_CostPathUp.fix_bound st (C04_CostPathUp.run_bound ser pend l)
+        + C04_CostPathUp.dd_count dbg ctx st ps l ser ss pend hh * (2 * C04_CostPathUp.run_bound ser pend l + 3))
+  /\ (forall ctx st ps l ser ss pend hh, usv_list l -> usv_list pend ->
+     C04_CostPathUp.dd_count dbg ctx st ps l ser ss pend hh = 0 ->
+     snd (parse_path_loop_c dbg ctx st ps l ser ss pend hh) <= 44 * (nlen ser + nlen pend + nlen l) + 8)
+  /\ (forall ctx st ps l ser ss pend hh, usv_list l -> usv_list pend ->
+     snd (parse_path_loop_c dbg ctx st ps l ser ss pend hh)
+     <= 18 * nlen l + 12 * nlen pend + 5 + (nlen l + 2) * (2 * C04_CostPathUp.run_bound ser pend l + 3))
+  /\ (forall ctx st hh ps ser l, st_is_file st = false -> usv_list l -> C04_CostPathDD.dotfree l ->
+     C04_CostPathUp.dd_count dbg ctx st ps l ser (nlen ser) [] hh = 0
+     /\ snd (parse_path_c dbg ctx st hh ps ser l) <= 18 * nlen l + 5)
+  /\ (forall st ps segs s, st_is_file st = false -> Forall usv_list segs -> Forall C04_CostPathDD.dotfree segs ->
+     snd (psm_extend_loop_c dbg st ps s segs)
+     <= 18 * C04_CostPathDD.total_len segs + 7 * nlen (map nlen segs) + 1).
+Proof.
+  intros dbg. split; [exact (C04_CostPathUp.path_cost_upper dbg)|]. split; [exact (C04_CostPathUp.path_cost_linear_no_dd dbg)|].
+  split; [exact (C04_CostPathUp.path_cost_quadratic dbg)|]. split.
+  - intros ctx st hh ps ser l Hf Hl Hd. split.
+    + exact (C04_CostPathDD.dd_count_dotfree dbg ctx st ps l Hf ser (nlen ser) [] hh Hl Hd (Forall_nil _) (Forall_nil _)
+               (C04_CostPathDD.seg_units_end ser)).
+    + exact (C04_CostPathDD.parse_path_linear_dotfree_nofile dbg ctx st hh ps ser l Hf Hl Hd).
+  - intros st ps segs s Hf Hu Hd. exact (C04_CostPathDD.extend_linear_dotfree dbg st ps segs Hf Hu Hd s).
+Qed.
+Check C04_cost_path_upper : forall dbg,
+  (forall ctx st ps l ser ss pend hh, usv_list l -> usv_list pend ->
+     snd (parse_path_loop_c dbg ctx st ps l ser ss pend hh)
+     <= 18 * nlen l + 12 * nlen pend + 5 + C04_CostPathUp.fix_bound st (C04_CostPathUp.run_bound ser pend l)
+        + C04_CostPathUp.dd_count dbg ctx st ps l ser ss pend hh * (2 * C04_CostPathUp.run_bound ser pend l + 3))
+  /\ (forall ctx st ps l ser ss pend hh, usv_list l -> usv_list pend ->
+     C04_CostPathUp.dd_count dbg ctx st ps l ser ss pend hh = 0 ->
+     snd (parse_path_loop_c dbg ctx st ps l ser ss pend hh) <= 44 * (nlen ser + nlen pend + nlen l) + 8)
+  /\ (forall ctx st ps l ser ss pend hh, usv_list l -> usv_list pend ->
+     snd (parse_path_loop_c dbg ctx st ps l ser ss pend hh)
+     <= 18 * nlen l + 12 * nlen pend + 5 + (nlen l + 2) * (2 * C04_CostPathUp.run_bound ser pend l + 3))
+  /\ (forall ctx st hh ps ser l, st_is_file st = false -> usv_list l -> C04_CostPathDD.dotfree l ->
+     C04_CostPathUp.dd_count dbg ctx st ps l ser (nlen ser) [] hh = 0
+     /\ snd (parse_path_c dbg ctx st hh ps ser l) <= 18 * nlen l + 5)
+  /\ (forall st ps segs s, st_is_file st = false -> Forall usv_list segs -> Forall C04_CostPathDD.dotfree segs ->
+     snd (psm_extend_loop_c dbg st ps s segs)
+     <= 18 * C04_CostPathDD.total_len segs + 7 * nlen (map nlen segs) + 1).
+Print Assumptions C04_cost_path_upper.
+
+(* ================================================================== the overall linear-time statement *)
+(* "runs no longer than a constant times its input length", IN THE COST MODEL, with the exact known classes.  Every cost
+   twin of the development (Model/Cost.v, Proofs/C04_Cost*.v) has a linear bound, except inside:
+     F-C04-8  (path state: double-dot segments resolved behind a long prefix)  - linear iff no double-dot finish, part 6;
+     F-C04-6  (PathSegmentsMut::extend on file: URLs)                          - linear for non-file schemes, part 6;
+     F-C04-9  (MIME parameters with pairwise distinct names)                   - linear for a bounded number, part 7;
+   and relative to parameters where the model has parameters (host functions; the Punycode encoder inside the uts46
+   walks, capped at 1000 scalar values: part 8).
+   NOT expressible here, because the function has no cost twin (the harness doubling experiment only):
+     F-C04-10 (the public punycode functions: quadratic and uncapped - C04_punycode_cap states what is capped),
+     F-C04-11 (Url::origin on nested blob: URLs: recursion depth = number of "blob:" levels, bounded only by the number
+               of ':' in the serialization - C16_parse_colons - and on the machine stack in the Rust),
+     the label pipeline process_inner of uts46 (linear passes plus the capped Punycode decoder, relative to the
+     normalizer of the adapter), the data: header pre-parser, the setters other than extend, make_relative, file paths. *)
+Definition C04_linear_statement : Prop :=
+  (* 1 percent_encoding *)
+  (forall S bs, snd (decode_c bs) <= 3 * nlen bs /\ snd (pe_chunks_c S bs) <= 5 * nlen bs + 1)
+  (* 2 form_urlencoded *)
+  /\ (forall bs, snd (bser_chunks_c bs) <= 5 * nlen bs + 1
+                 /\ snd (parse_next_c bs) <= 5 * (nlen bs - nlen (C04_Cost.pnext_rest (FormUrlencoded.parse_next bs))) + 2)
+  (* 3 base64 *)
+  /\ (forall (W E : Type) (write : W -> list N -> W * option E) d input, snd (feed_c write d input) <= nlen input)
+  (* 4 fragment, query, opaque path *)
+  /\ (forall set enc iup ctx ser l, C04_Cost.enc_ok enc -> usv_list l ->
+        snd (parse_fragment_loop_c ser [] l) <= 13 * nlen l + 1
+        /\ snd (parse_query_loop_c set enc iup ser [] l) <= 13 * nlen l + 1
+        /\ snd (parse_cannot_be_a_base_path_c ctx ser l) <= 13 * nlen l + 1)
+  (* 5 userinfo; host and port relative to linear host functions *)
+  /\ (forall st ser l, usv_list l -> C04_CostAuth.parse_userinfo_cost st ser l <= 14 * nlen l + 4)
+  /\ (forall hp hpo hd hpc hpoc ctx st l a b d e,
+        (forall t, hpc t <= a * nlen t + b) -> (forall t, hpoc t <= a * nlen t + b) ->
+        (forall t h, hp t = Ok h \/ hpo t = Ok h -> nlen (hd h) <= d * nlen t + e) -> nlen (hd (HDomain [])) <= e ->
+        C04_CostAuth.parse_host_and_port_cost hp hpo hd hpc hpoc ctx st l <= (3 + 2 * a + d) * nlen l + (49 + 2 * b + e))
+  (* 6 path state outside F-C04-8, extend outside F-C04-6 *)
+  /\ (forall dbg ctx st ps l ser ss pend hh, usv_list l -> usv_list pend ->
+        C04_CostPathUp.dd_count dbg ctx st ps l ser ss pend hh = 0 ->
+        snd (parse_path_loop_c dbg ctx st ps l ser ss pend hh) <= 44 * (nlen ser + nlen pend + nlen l) + 8)
+  /\ (forall dbg st ps segs s, st_is_file st = false -> Forall usv_list segs -> Forall C04_CostPathDD.dotfree segs ->
+        snd (psm_extend_loop_c dbg st ps s segs) <= 18 * C04_CostPathDD.total_len segs + 7 * nlen (map nlen segs) + 1)
+  (* 7 MIME outside F-C04-9 *)
+  /\ (forall s m, usv_list s -> Mime.parse s = Mime.Ok (Some m) ->
+        C04_CostMime.mime_parse_cost s <= (14 + C04_CostMime.plen (Mime.m_params m)) * (nlen s + 1) + 4)
+  (* 8 uts46 output walks; the encoder is capped *)
+  /\ (forall cfg ff oau dn tld bidi he labels aps seen pte flushed huo,
+        C04_CostIdna.wsize (fst (Uts46.walk1 cfg ff oau dn tld bidi he labels aps seen pte flushed huo))
+        <= C04_CostIdna.fl_cost dn flushed + C04_CostIdna.wbound cfg labels aps)
+  /\ (forall cfg dn he labels aps seen pte flushed,
+        C04_CostIdna.wsize (fst (Uts46.walk2 cfg dn he labels aps seen pte flushed))
+        <= C04_CostIdna.fl_cost dn flushed + C04_CostIdna.wbound cfg labels aps)
+  /\ (forall A cfg hy deny d, Idna_WalkEnc.AdapterUSV A ->
+        match Uts46.process_inner A cfg false hy deny d with
+        | Uts46.IRes _ _ _ db _ => Forall Idna_WalkEnc.capped (Uts46.split_on Uts46.DOT db)
+        | Uts46.IPanic _ => True
+        end)
+  (* the known classes are inhabited: no linear bound for the path state (F-C04-8) *)
+  /\ (forall a b : N, exists pre l dbg hh, usv_list l /\
+        a * (nlen (pre ++ [47]) + nlen l) + b
+        < snd (parse_path_loop_c dbg CUrlParser STNotSpecial (nlen pre) l (pre ++ [47]) (nlen (pre ++ [47])) [] hh)).
+
+Theorem C04_linear : C04_linear_statement.
+Proof.
+  split; [intros S bs; exact (conj (C04_Cost.decode_c_linear bs) (C04_Cost.pe_chunks_c_linear S bs))|].
+  split; [intros bs; exact (conj (C04_Cost.bser_chunks_c_linear bs) (C04_Cost.parse_next_c_linear bs))|].
+  split; [intros W E write d input; exact (proj2 (C04_Cost.feed_c_spec write input d))|].
+  split; [intros set enc iup ctx ser l He Hl;
+          exact (conj (proj2 (C04_Cost.parse_fragment_c_linear ser l Hl))
+                (conj (proj2 (C04_Cost.parse_query_c_linear set enc iup ser l He Hl)) (proj2 (C04_Cost.parse_cbb_c_linear ctx ser l Hl))))|].
+  split; [exact C04_CostAuth.parse_userinfo_linear|]. split; [exact C04_CostAuth.parse_host_and_port_linear|].
+  split; [exact C04_CostPathUp.path_cost_linear_no_dd|].
+  split; [intros dbg st ps segs s Hf Hu Hd; exact (C04_CostPathDD.extend_linear_dotfree dbg st ps segs Hf Hu Hd s)|].
+  split; [exact C04_CostMime.mime_parse_cost_le|].
+  split; [exact C04_CostIdna.walk1_wsize|]. split; [exact C04_CostIdna.walk2_wsize|].
+  split; [intros A cfg hy deny d HU; exact (C04_CostIdna.labels_capped A cfg HU hy deny d)|].
+  exact C04_CostPath.path_cost_not_linear.
+Qed.
+Check C04_linear : C04_linear_statement.
+Print Assumptions C04_linear.
+
+(* non-vacuity of the new theorems: a concrete host-function instance meets HostWf and a parse / join chain exists (PJ);
+   the table has a row for Url::origin carrying the exact claim; a run with three ".." has dd_count 3, one without has 0;
+   the cost twins of the userinfo / host / port states on "u:p@h:80/" *)
+Example C04_fin_premises_hold :
+  C03_ReachParts.HostWf C02_AuthMain.ex_hp C02_AuthMain.ex_hp C02_AuthMain.ex_hd
+  /\ (exists u, C05_CompSteps3.PJ true C02_AuthMain.ex_hp C02_AuthMain.ex_hp C02_AuthMain.ex_hd u /\ ser u = [104;116;116;112;58;47;47;104;47;120])
+  /\ C04_CostPathUp.dd_count true CUrlParser STNotSpecial 2 (C04_CostPath.dotdots 3) [97; 58; 47] 3 [] false = 3
+  /\ C04_CostPathUp.dd_count true CUrlParser STNotSpecial 2 [98; 47; 99; 63; 113] [97; 58; 47] 3 [] false = 0
+  /\ C04_CostPathDD.dotfree [98; 47; 99; 63; 113]
+  /\ C04_CostAuth.parse_userinfo_cost STNotSpecial [97; 58; 47; 47] [117; 58; 112; 64; 104; 58; 56; 48; 47] = 18
+  /\ snd (C04_CostAuth.host_scan_c false false [] [104; 58; 56; 48; 47]) = 3
+  /\ C04_Origin.tuple_no_host_b C04_ParseTotal.cbb_special_base = true.
+Proof.
+  split; [exact C03_ReachHost.ex_host_wf|]. split.
+  - eexists. split.
+    + eapply C05_CompSteps3.PJ_join with (ovr := None) (input := [120]);
+        [eapply C05_CompSteps3.PJ_parse with (ovr := None) (input := [104;116;116;112;58;47;47;104;47;97]); vm_compute; reflexivity
+        | vm_compute; reflexivity].
+    + reflexivity.
+  - split; [vm_compute; reflexivity|]. split; [vm_compute; reflexivity|].
+    split; [unfold C04_CostPathDD.dotfree; repeat constructor; discriminate|].
+    split; [vm_compute; reflexivity|]. split; [vm_compute; reflexivity|]. vm_compute. reflexivity.
+Qed.
